@@ -5,6 +5,7 @@ pub mod c02;
 pub mod e2e;
 pub mod c03;
 pub mod c04;
+pub mod c05;
 pub mod c06;
 pub mod c07;
 pub mod c08;
@@ -20,7 +21,7 @@ pub mod peer;
 pub mod common;
 
 pub fn ids() -> Vec<&'static str> {
-    vec!["C01", "C02", "C03", "C04", "C06", "C07", "C08", "C09", "C10", "C13", "C14", "C18", "C19", "C20"]
+    vec!["C01", "C02", "C03", "C04", "C05", "C06", "C07", "C08", "C09", "C10", "C13", "C14", "C18", "C19", "C20"]
 }
 pub fn get(id: &str) -> Option<Box<dyn Check>> {
     match id {
@@ -28,6 +29,7 @@ pub fn get(id: &str) -> Option<Box<dyn Check>> {
         "C02" => Some(Box::new(c02::C02)),
         "C03" => Some(Box::new(c03::C03)),
         "C04" => Some(Box::new(c04::C04)),
+        "C05" => Some(Box::new(c05::C05)),
         "C06" => Some(Box::new(c06::C06)),
         "C07" => Some(Box::new(c07::C07)),
         "C08" => Some(Box::new(c08::C08)),
